@@ -19,7 +19,7 @@ out = {
   "origin": "fresh sub-agent given only the property text and a scratch worktree",
   "confirmed": "tools/confirm_seed.sh: demo passes on the clean tree, fails with the patch; `cargo test --offline --lib` unchanged (54 passed + the known expand_env_vars_tests failure); color_control passes",
   "demonstration": f"place demo.rs as tests/demo_{m}.rs in a scratch worktree of /repo and run `cargo test --offline --test demo_{m}`",
-  "checks_run": "tools/run_seeded.sh patch.diff <IDs> (quick tier)",
+  "checks_run": "tools/run_seeded.sh / tools/lane_seeded.sh patch.diff <IDs> (quick tier; the lane variant runs the same checks on a private copy of /repo and /verif)",
   "caught_by": [c for c in caught.split(",") if c],
   "note": note,
   "agent_ran": meta.get("ran"),
